@@ -2,3 +2,4 @@ import Gittuf.Props.C02
 #print axioms Gittuf.C02_newState_root_signed
 #print axioms Gittuf.C02_newState_versions
 #print axioms Gittuf.C02_chain_sound
+#print axioms Gittuf.World.F4_witness
